@@ -694,7 +694,7 @@ func main() {
 	a := wire.ParseArgs()
 	rng := wire.Rng(a.Seed)
 	w := wire.NewWriter("C18", a.Seed, a.Tier)
-	w.Rule = "single-key sweep (exhaustive): every rule key (run-time table + published table) x (every value listed for any key + specials \"\", no, yes, unlisted, No, ... + byte-order neighbours of the key's own listed values [thorough: of all listed values]) x area in {absent, \"\", no, yes, x}, both tag orders alternating, on a closed 4-ring; length sweep 0..7 x closed/open/all-equal x tag sets; every id sequence over {1,2,3} of length 0..5; way nodes are full WayNode values: half of all way cases bare refs, the others rotate through 7 annotation patterns (own location per position, same spot at both ends with different ids, ends only, one end only, all on one spot, version without location) plus a dedicated pattern x refs x tag-set sweep and random nodes over small id/version/location alphabets; near-miss keys (rule key, area, type with a space/colon/s/NUL added, a byte dropped, upper case) with firing values; pairs (list key x any key) x pass/fail/no values x both orders; random tag sets in 3-6 (or all) orders; irrelevant and near-miss keys inserted; duplicate keys (model only); the other fields of Way / Relation (id, version, visible, user, timestamp, committed, updates, bounds, members) rotate through 6 variants and must not matter; composite values (a listed value joined to another by ; , | space ...: not listed); 12..33 (thorough ..257) tags with present-but-empty deciding values at the front, back or middle; a dictionary of ~50 common OSM tags as unrelated tags next to satisfying / non-satisfying tag sets; sequences of Polygon() calls on ONE Way edited in place between the calls (same lengths, struct copies); relations: type values x other tags x positions; Tags.Find and HasTag/FindTag/Map/AnyInteresting on present/absent/near-miss/duplicated keys and on the uninteresting keys; the run-time table. distinct = distinct token streams; trivial = none."
+	w.Rule = "single-key sweep (exhaustive): every rule key (run-time table + published table) x (every value listed for any key + specials \"\", no, yes, unlisted, No, ... + byte-order neighbours of the key's own listed values [thorough: of all listed values]) x area in {absent, \"\", no, yes, x}, both tag orders alternating, on a closed 4-ring; length sweep 0..7 x closed/open/all-equal x tag sets; every id sequence over {1,2,3} of length 0..5; end refs differing in exactly one bit (all 64 positions, several bases incl. negative) and in bits a packed id drops; way nodes are full WayNode values: half of all way cases bare refs, the others rotate through 7 annotation patterns (own location per position, same spot at both ends with different ids, ends only, one end only, all on one spot, version without location) plus a dedicated pattern x refs x tag-set sweep and random nodes over small id/version/location alphabets; near-miss keys (rule key, area, type with a space/colon/s/NUL added, a byte dropped, upper case) with firing values; pairs (list key x any key) x pass/fail/no values x both orders; random tag sets in 3-6 (or all) orders; irrelevant and near-miss keys inserted; duplicate keys (model only); the other fields of Way / Relation (id, version, visible, user, timestamp, committed, updates, bounds, members) rotate through 6 variants and must not matter; composite values (a listed value joined to another by ; , | space ...: not listed); 12..33 (thorough ..257) tags with present-but-empty deciding values at the front, back or middle; a dictionary of ~50 common OSM tags as unrelated tags next to satisfying / non-satisfying tag sets; sequences of Polygon() calls on ONE Way edited in place between the calls (same lengths, struct copies); relations: type values x other tags x positions; Tags.Find and HasTag/FindTag/Map/AnyInteresting on present/absent/near-miss/duplicated keys and on the uninteresting keys; the run-time table. distinct = distinct token streams; trivial = none."
 	thorough := a.Tier == "thorough"
 
 	rt := osm.VerifPolyConditions()
@@ -1059,6 +1059,23 @@ func main() {
 			ns[l-1].ann, ns[l-1].ver, ns[l-1].cs, ns[l-1].lat, ns[l-1].lon = ns[0].ann, ns[0].ver, ns[0].cs, ns[0].lat, ns[0].lon
 		}
 		w.Add(wayCaseN("waynodes-random", ns, tagsets[1+rng.Intn(3)]))
+	}
+
+	// end refs that differ in ONE bit only (every bit position, so also bits a packed id drops or
+	// masks: >= 2^40, 2^44, 2^48, the sign) are different nodes: the way is open
+	for _, base := range []int64{0, 7, -1, 1 << 44, 1<<40 - 1, math.MinInt64} {
+		for k := uint(0); k < 64; k++ {
+			if !thorough && k > 3 && k < 30 && k%5 != 0 {
+				continue
+			}
+			other := base ^ int64(uint64(1)<<k)
+			w.Add(wayCase("ids-one-bit", []int64{base, 2, 3, other}, osm.Tags{{Key: "building", Value: "yes"}}))
+		}
+		w.Add(wayCase("ids-one-bit", []int64{base, 2, 3, base}, osm.Tags{{Key: "building", Value: "yes"}}))
+	}
+	for _, pr := range [][2]int64{{7, 7 + 1<<44}, {1 << 44, 0}, {-1, -1 - 1<<44}, {7, 7 + 1<<48}, {7, 7 - 1<<48}, {1 << 40, 0}, {1<<40 + 5, 5}, {math.MaxInt64, -1}, {math.MinInt64, 0}, {1 << 47, -1 << 47}} {
+		w.Add(wayCase("ids-one-bit", []int64{pr[0], 2, 3, pr[1]}, osm.Tags{{Key: "landuse", Value: "grass"}}))
+		w.Add(wayCase("ids-one-bit", []int64{pr[1], 2, 3, 4, pr[0]}, osm.Tags{{Key: "area", Value: "yes"}}))
 	}
 
 	// every id sequence over {1,2,3} of length 0..5 (all first/last/length patterns)
